@@ -11,6 +11,7 @@ import (
 	"math/rand"
 	"os"
 	"path/filepath"
+	"runtime/pprof"
 	"sort"
 	"sync"
 	"time"
@@ -40,6 +41,7 @@ var (
 	fJobs    = flag.Int("jobs", 8, "parallel gateway instances")
 	fN       = flag.Int("n", 0, "size parameter of the subcommand")
 	fTier    = flag.String("tier", "quick", "quick | thorough")
+	fWatch   = flag.Int("watchdog", 0, "seconds after which the driver dumps its goroutines and gives up (0 = never)")
 )
 
 func main() {
@@ -55,6 +57,14 @@ func main() {
 		defer os.RemoveAll(d)
 	}
 	os.MkdirAll(*fWork, 0700)
+	if *fWatch > 0 {
+		go func() {
+			time.Sleep(time.Duration(*fWatch) * time.Second)
+			fmt.Fprintf(os.Stderr, "vdrv watchdog: %s still running after %d s; goroutines:\n", cmd, *fWatch)
+			pprof.Lookup("goroutine").WriteTo(os.Stderr, 1)
+			os.Exit(3)
+		}()
+	}
 	start := time.Now()
 	rep := &report{Cmd: cmd}
 	var err error
